@@ -43,8 +43,8 @@ def decode_array_dir(path, require_readme=True):
         raise DecodeError('descr_numtype')
     if d['byteorder'] not in _BO:
         raise DecodeError('descr_byteorder')
-    if d['arrayorder'] != 'C':
-        raise DecodeError('descr_arrayorder_not_C')
+    if d['arrayorder'] not in ('C', 'F'):
+        raise DecodeError('descr_arrayorder')
     shape = d['shape']
     if not isinstance(shape, list) or not shape or \
             not all(isinstance(x, int) and not isinstance(x, bool) and x >= 0 for x in shape):
@@ -59,7 +59,7 @@ def decode_array_dir(path, require_readme=True):
     with open(bp, 'rb') as f:
         raw = f.read()
     dtype = np.dtype(f'{_BO[d["byteorder"]]}{kind}{size}')
-    a = np.frombuffer(raw, dtype=dtype).reshape(shape)   # C order
+    a = np.frombuffer(raw, dtype=dtype).reshape(shape, order=d['arrayorder'])   # layout as the descriptor says
     return a, d
 
 
